@@ -14,6 +14,7 @@ import YardlModel.Plan
 import YardlModel.SyntaxJson
 import YardlModel.TypeParser
 import YardlModel.Determinism
+import YardlModel.Namespaces
 import YardlModel.Evolution
 import YardlModel.Topo
 import YardlModel.Names
@@ -523,6 +524,22 @@ def handle (j : Json) : Except String Json := do
         | .ok vj => do pure (Json.str (toHex (enc t (← valOfJson vj))))
         | .error _ => pure Json.null
       pure (Json.mkObj [("plan", Schema.tyToJson t), ("hex", hex)])
+  | "namespaces" =>
+    -- parsePackageNamespaces + flattenNamespaces over a loaded import graph given by namespace: {"graph": [[ns, [imported ns, ...]], ...], "root": ns}
+    let g ← (← j.getObjVal? "graph").getArr?
+    let pairs ← g.toList.mapM fun e => do
+      let a ← e.getArr?
+      let n ← (a[0]?.getD Json.null).getNat?
+      let is ← (← (a[1]?.getD Json.null).getArr?).toList.mapM (·.getNat?)
+      pure (n, is)
+    let G : Nat → List Nat := fun n => match pairs.find? (fun e => e.1 == n) with | some e => e.2 | none => []
+    let root ← (← j.getObjVal? "root").getNat?
+    let fuel := pairs.length + 2
+    let ps := Namespaces.parseNs G fuel root []
+    let refs : Nat → List Nat := fun n => (Namespaces.get ps n).getD []
+    let order := Namespaces.flatten refs fuel root []
+    pure (Json.mkObj [("order", Json.arr (order.map jn).toArray),
+                      ("references", Json.arr (ps.map fun e => Json.arr #[jn e.1, Json.arr (e.2.map jn).toArray]).toArray)])
   | "write_if_needed" =>
     -- Det.writeIfNeeded on the file contents the Go harness builds (same byte pattern)
     let pat (n : Nat) : List UInt8 := (List.range n).map fun i => UInt8.ofNat ((i * 31 + i / 4096 * 7 + 11) % 251)
